@@ -9,7 +9,10 @@ CONSTANTS
   LegacyConcurrentWaits = FALSE
   LegacyStartedFirst = TRUE
   LegacyHandleClose = FALSE
+  MutUnregBeforeDone = FALSE
+  MutIsClosedInRunHandlers = FALSE
+  MutSkipStoppedWhenClosing = FALSE
   LegacySecondCloseNil = FALSE
-INVARIANTS Graceful ErrorOnlyOnTimeout NoPanic RunAfterClose SubClosedAtEnd DroppedNotHandled
+INVARIANTS NoStuck Graceful ErrorOnlyOnTimeout NoPanic RunAfterClose SubClosedAtEnd DroppedNotHandled
 
 CHECK_DEADLOCK FALSE
